@@ -558,7 +558,7 @@ pub fn run(ctx: &Ctx) {
             ctx,
             &fam,
             &m,
-            ExploreOpts { max_depth: depth, wall_cap: Duration::from_secs(ctx.tier.pick(40, 1500)), state_cap: ctx.tier.pick(600_000, 8_000_000), dedup: true },
+            ExploreOpts { max_depth: depth, wall_cap: Duration::from_secs(ctx.tier.pick(40, 1500)), state_cap: ctx.tier.pick(600_000, 16_000_000), dedup: true },
         );
         if i == 0 {
             explore::audit_dedup(ctx, &fam, &m, &res, ctx.tier.pick(2, 3), Duration::from_secs(ctx.tier.pick(20, 300)));
